@@ -742,6 +742,56 @@ pub fn eval_io_case(t: &[&str]) -> Option<String> {
             let port = bus.port();
             Some(format!("{} | {} | {}", outs.join(" ; "), hex_of_bytes(&port.wr.out), hex_of_bytes(port.rd.remaining())))
         }
+        "ODS" => {
+            // ODS input reply... / wsched... : the ODK bridge in front of a bus that answers each forwarded message from a
+            // script (N = no answer) -- including answers to messages a sign would never answer
+            let (replies, ws) = split_at("/", &t[2..]);
+            struct Scripted {
+                current: Rc<RefCell<Option<flipdot_core::Message<'static>>>>,
+                log: Rc<RefCell<Vec<String>>>,
+            }
+            impl std::fmt::Debug for Scripted {
+                fn fmt(&self, f: &mut std::fmt::Formatter<'_>) -> std::fmt::Result {
+                    write!(f, "Scripted")
+                }
+            }
+            impl SignBus for Scripted {
+                fn process_message<'a>(
+                    &mut self,
+                    message: flipdot_core::Message<'_>,
+                ) -> Result<Option<flipdot_core::Message<'a>>, Box<dyn std::error::Error + Send + Sync>> {
+                    self.log.borrow_mut().push(str_msg(&message));
+                    Ok(self.current.borrow().as_ref().map(own_msg))
+                }
+            }
+            let log = Rc::new(RefCell::new(vec![]));
+            let answers: Vec<Option<flipdot_core::Message<'static>>> = replies.iter().map(|s| if *s == "N" { None } else { Some(msg_of_str(s)) }).collect();
+            let nsteps = answers.len();
+            let current = Rc::new(RefCell::new(None));
+            let port = TestPort::new(SchedReader::new(bytes_of_hex(t[1]), vec![]), SchedWriter::new(ws.iter().map(|s| wr_ev_of_str(s)).collect()));
+            let mut odk = match Odk::try_new(port, Scripted { current: current.clone(), log: log.clone() }) {
+                Ok(o) => o,
+                Err(_) => return Some("ER SETUP".to_string()),
+            };
+            let mut outs = vec![];
+            for step in 0..nsteps {
+                // the answer the bus would give at this step, whether or not the bridge gets as far as asking
+                *current.borrow_mut() = answers[step].clone();
+                let before = log.borrow().len();
+                let r = guarded(|| odk.process_message());
+                let s = match r {
+                    None => "PANIC".to_string(),
+                    Some(Ok(())) => "OK".to_string(),
+                    Some(Err(OdkError::Communication { .. })) => "COMM".to_string(),
+                    Some(Err(OdkError::Bus { .. })) => "BUSERR".to_string(),
+                    Some(Err(_)) => "ER ???".to_string(),
+                };
+                let fwd = log.borrow().get(before).cloned().unwrap_or_else(|| "-".to_string());
+                outs.push(format!("{} fwd={}", s, fwd));
+            }
+            let (out_hex, rem_hex) = odk_port_view(&odk);
+            Some(format!("{} | {} | {}", outs.join(" ; "), out_hex, rem_hex))
+        }
         "OD" => {
             let k: usize = t[1].parse().unwrap();
             let (signs, rest) = parse_signs(k, &t[2..]);
